@@ -79,7 +79,8 @@ pub fn cmd_worker(args: &[String]) -> i32 {
         }
         let rs = run_seed(seed, scn.name(), i);
         crate::framework::set_run_index(i);
-        let o = scn.run_seed(rs, tier, false);
+        let dbg_nondet = std::env::var_os("SIM_DEBUG_NONDET").is_some();
+        let o = scn.run_seed(rs, tier, dbg_nondet);
         n_runs += 1;
         if o.hung {
             let case = scn.generate_json(rs, tier);
@@ -131,6 +132,10 @@ pub fn cmd_worker(args: &[String]) -> i32 {
                 break;
             }
             if o2.trace_hash != o.trace_hash {
+                if dbg_nondet {
+                    let _ = std::fs::write(format!("/tmp/nondet-{i}-a.json"), serde_json::to_string_pretty(&o.trace).unwrap_or_default());
+                    let _ = std::fs::write(format!("/tmp/nondet-{i}-b.json"), serde_json::to_string_pretty(&o2.trace).unwrap_or_default());
+                }
                 harness_errors.push(format!(
                     "non-deterministic run: index {i} seed {rs} produced observation hash {:016x} then {:016x}",
                     o.trace_hash, o2.trace_hash
